@@ -7,6 +7,7 @@ import Gittuf.Spec.C01
 import Gittuf.Props.Witness
 import Gittuf.Proofs.Loop
 import Gittuf.Proofs.Entry
+import Gittuf.Proofs.Authorized
 namespace Gittuf
 namespace World
 
@@ -82,6 +83,49 @@ theorem C01_entry_accept (W : World) (v : Variant) (P : Policy) (A : Option AttS
       · rename_i res hres
         obtain ⟨vs, hvs, hmet⟩ := verifyObject_accept W v P _ _ _ ap res hres
         exact ⟨tc, ap, vs, htc, hap, hvs, hmet⟩
+
+/-- **Acceptance of an entry implies the declarative authorization of Spec/C01 for its Git rule**
+(F7 repaired; policy without global rules, so that no exhaustive verifier is involved; principals
+well defined - unique ids, keys as defined, at most one trusted app): the rules consulted for
+`git:<ref>` are empty, or some consulted rule has at least `threshold ≥ 1` principals that
+*contributed* to exactly this change. Together with `C01_relative_sound` this is the soundness half of
+C01 for the Git rule: every unrevoked entry of an accepted range is authorized, in the declarative
+sense, by a policy state and an attestation state in force during the walk. -/
+theorem C01_entry_authorized_git (W : World) (v : Variant) (hf7 : v.f7_ghPredicateNotValidated = false)
+    (P : Policy) (At : AttState) (i : Nat) (e : LogEntry) (tc : Nat)
+    (hne : (e.ref == policyRef || e.ref == attestationsRef) = false)
+    (htc : targetCommit e = some tc) (hg : P.root.globals = [])
+    (hwd : ∀ vs, P.findSpecific ("git:" ++ e.ref) = some vs → ∀ vn ∈ vs, vn.v.exhaustive = false ∧ WellDefined P vn)
+    (h : W.verifyEntry v P (some At) i e = .ok ()) :
+    pathAuthorized P (some At) ("git:" ++ e.ref) e.ref (W.fromId e.ref i) (W.treeOf tc) e.signer = true := by
+  obtain ⟨tc', ap, vs, htc', hap, hvs, hmet⟩ := C01_entry_accept W v P (some At) i e hne h
+  rw [htc] at htc'; cases htc'
+  have hspec : P.findSpecific ("git:" ++ e.ref) = some vs := by
+    unfold Policy.findVerifiers at hvs
+    split at hvs
+    · cases hvs
+    · rename_i vs' hvs'
+      simp only [hg, List.isEmpty_nil, if_true, Option.some.injEq] at hvs
+      rw [hvs'] ; rw [hvs]
+  unfold pathAuthorized
+  simp only [hspec]
+  rcases hmet with hemp | ⟨vn, hvn, hmet⟩
+  · simp [hemp]
+  · obtain ⟨hnex, hwdvn⟩ := hwd vs hspec vn hvn
+    rcases hmet with hex | ⟨acc, hacc⟩
+    · rw [hnex] at hex; cases hex
+    · have hcount := ruleMet_count v hf7 P At e.ref (W.fromId e.ref i) (W.treeOf tc) e.signer ap hap vn hwdvn acc hacc
+      have h1 : 1 ≤ vn.v.threshold := hacc.1
+      simp only [Bool.or_eq_true, List.any_eq_true, Bool.and_eq_true, decide_eq_true_eq]
+      right
+      exact ⟨vn, hvn, h1, hcount⟩
+
+/-- non-vacuity of the side conditions of `C01_entry_authorized_git`: the policy of the witness
+histories satisfies them, and its authorized push is accepted -/
+example : WellDefined wPol ⟨"protect-main", { principals := [⟨1002, [2]⟩], threshold := 1 }⟩ ∧
+    wPol.findSpecific "git:refs/heads/main" = some [⟨"protect-main", { principals := [⟨1002, [2]⟩], threshold := 1 }⟩] ∧
+    wGood.verifyEntry Variant.good wPol (some {}) 1 (push 0 2) = .ok () := by
+  refine ⟨⟨by decide, by decide, by decide, by decide⟩, by decide, by decide⟩
 
 /-- membership in the verified range: every reference-updater entry for `ref` recorded between the
 first and the last entry of the range is in the queue the loop walks -/
